@@ -10,6 +10,7 @@ fn size(nm: &str, l: usize) -> usize {
     match nm {
         "0" => 0,
         "1" => 1,
+        "H" => (l - 1) / 2,
         "L-2" => l - 2,
         "L-1" => l - 1,
         "L" => l,
@@ -27,7 +28,12 @@ pub fn render(p: &J, l: usize) -> String {
     let mut s = String::new();
     let hs = size(p["hs"].as_str().unwrap(), l);
     if hs > 0 {
-        if p["hk"] == "aot" {
+        if p["hk"] == "chain" {
+            // every prefix is an array of tables: [[k]], [[k.k]], ... (an array and a table per level)
+            for n in 1..=hs {
+                s.push_str(&format!("[[{}]]\n", path(n)));
+            }
+        } else if p["hk"] == "aot" {
             s.push_str(&format!("[[{}]]\n", path(hs)));
         } else {
             s.push_str(&format!("[{}]\n", path(hs)));
@@ -38,7 +44,26 @@ pub fn render(p: &J, l: usize) -> String {
     let mut close = String::new();
     for layer in p["layers"].as_array().unwrap() {
         let n = size(layer["n"].as_str().unwrap(), l);
-        if layer["c"] == "A" {
+        if layer["c"] == "AE" {
+            // an empty array as the first sibling at every level
+            for _ in 0..n {
+                s.push_str("[[], ");
+            }
+            let mut c = String::new();
+            for _ in 0..n {
+                c.push(']');
+            }
+            close = c + &close;
+        } else if layer["c"] == "IE" {
+            for _ in 0..n {
+                s.push_str("{e={}, k=");
+            }
+            let mut c = String::new();
+            for _ in 0..n {
+                c.push('}');
+            }
+            close = c + &close;
+        } else if layer["c"] == "A" {
             for _ in 0..n {
                 s.push('[');
             }
